@@ -410,6 +410,31 @@ func C17(c *core.Ctx) {
 					c.Viol("R17.2", "register-default:"+field, c.Pos(ci), "route field "+field+" is never set")
 					return
 				}
+				// the default is taken exactly when the parameter is absent: every phi edge
+				// carrying the default constant is an edge asserting params.<F> == nil
+				if pf, ok := map[string]string{"Origin": "Origin", "Cost": "Cost", "Flags": "Flags"}[field]; ok {
+					if phi, isPhi := core.Strip(v).(*ssa.Phi); isPhi {
+						var params ssa.Value
+						for _, dc := range core.FindCalls(reg, core.CalleeID{Pkg: "fw/mgmt", Name: "decodeControlParameters"}) {
+							params = dc.Value()
+						}
+						absent := map[core.Edge]bool{}
+						if params != nil {
+							for _, f := range core.EdgeFacts(reg, atomFieldNonNil("params."+pf+"!=nil", params, pf)) {
+								if !f.Holds {
+									absent[f.E] = true
+								}
+							}
+						}
+						okOnlyAbsent := len(absent) > 0
+						for i, e := range phi.Edges {
+							if _, isC := core.ConstInt(e); isC && !absent[core.Edge{From: phi.Block().Preds[i], To: phi.Block()}] {
+								okOnlyAbsent = false
+							}
+						}
+						c.Decide(okOnlyAbsent, "R17.2", "register-default-only-when-absent:"+field, c.Pos(ci), "the default of "+field+" is used only on the edge asserting the parameter is absent", "rib/register replaces an explicitly given "+field+" by the default on some path (the default is taken although the parameter is present): the installed route differs from the one the command describes")
+					}
+				}
 				ls := sl.Leaves(v)
 				hasDefault := false
 				for _, l := range ls {
